@@ -8,12 +8,71 @@ From Proofs Require Import TxnBase TxnFoot TxnFrame TxnInv TxnExpire TxnCommit T
 Import ListNotations.
 Open Scope Z_scope.
 
+(* ------------------------------------------------------------------ lists of attributes and of queued values *)
+Definition vals_le (a b : list (option val)) : Prop := Forall2 (fun x y => x = None \/ x = y) a b.
+Lemma vals_le_refl a : vals_le a a.
+Proof. induction a; constructor; auto. Qed.
+Lemma all_none_le a b : vals_le a b -> all_none b = true -> all_none a = true.
+Proof.
+  unfold all_none. induction 1 as [|x y a b Hxy Hab IH]; cbn; auto. intros H. apply andb_true_iff in H. destruct H as [H1 H2].
+  destruct Hxy as [ -> | -> ]; [apply IH; exact H2|]. rewrite H1. apply IH. exact H2.
+Qed.
+Lemma mask_le vals : forall p, vals_le (mask vals p) vals.
+Proof.
+  induction vals as [|v vs IH]; intros p; cbn.
+  - destruct p; constructor.
+  - destruct p as [|[x|] p]; [apply vals_le_refl|constructor; [left; reflexivity|apply IH]|constructor; [right; reflexivity|apply IH]].
+Qed.
+Lemma mask_clean vals : forall p, existsb is_some p = false -> mask vals p = vals.
+Proof.
+  induction vals as [|v vs IH]; intros p H; cbn; [destruct p; reflexivity|].
+  destruct p as [|[x|] p]; cbn in H; try discriminate; auto. f_equal. apply IH. exact H.
+Qed.
+Lemma existsb_no_queue p : existsb is_some (no_queue p) = false.
+Proof. unfold no_queue. induction p; cbn; auto. Qed.
+
+(* a cached attribute of a column with a queued assignment is the queued value *)
+Fixpoint pend_cached (vals p : list (option val)) : Prop :=
+  match vals, p with
+  | v :: vs, Some x :: ps => (v = None \/ v = Some x) /\ pend_cached vs ps
+  | _ :: vs, None :: ps => pend_cached vs ps
+  | _, _ => True
+  end.
+Lemma pend_cached_clean vals : forall p, existsb is_some p = false -> pend_cached vals p.
+Proof.
+  induction vals as [|v vs IH]; intros p H; cbn; [destruct p; exact I|].
+  destruct p as [|[x|] p]; cbn in H; try discriminate; auto.
+Qed.
+Lemma pend_cached_none (l : list (option val)) : forall p, pend_cached (map (fun _ => None) l) p.
+Proof.
+  induction l as [|v vs IH]; intros p; cbn; [destruct p; exact I|].
+  destruct p as [|[x|] p]; auto.
+Qed.
+
+Section Fresh.
+Variable cfg : config.
+
 (* ------------------------------------------------------------------ the invariant, with extra roots *)
+(* nothing is cached that speaks about the database *)
+Definition no_db_vals (i : inst) : bool := all_none (mask (i_vals i) (i_pending i)).
+(* for an eager class: an instance flagged expired caches nothing, and nothing is ever queued (a lazyUpdate instance
+   flagged expired can cache what it queued, and keeps it after syncUpdate); what is cached for a queued column is the
+   queued value *)
+Definition inst_ok (i : inst) : Prop :=
+  (lazy cfg = false -> (i_expired i = true -> no_db_vals i = true) /\ dirty i = false) /\ pend_cached (i_vals i) (i_pending i).
 Definition PF (X : list nat) (s : st) : Prop :=
   forall o, alive s Par X o = true -> i_obsolete (get_inst s Par o) = false -> shows (committed s) (get_inst s Par o) = true.
-Definition exp_ok (s : st) : Prop :=
-  forall o, i_expired (get_inst s Par o) = true -> no_vals (get_inst s Par o) = true.
+Definition exp_ok (s : st) : Prop := forall o, inst_ok (get_inst s Par o).
 Definition JX (X : list nat) (s : st) : Prop := cache_ok s Par /\ exp_ok s /\ PF X s.
+
+Lemma shows_no_db_vals t i : no_db_vals i = true -> shows t i = true.
+Proof. intros H. unfold shows. apply shows_vals_none. exact H. Qed.
+Lemma no_vals_no_db i : no_vals i = true -> no_db_vals i = true.
+Proof. intros H. unfold no_db_vals. apply mask_none. exact H. Qed.
+Lemma inst_ok_blank id : inst_ok (blank_inst id).
+Proof. split; [intros _; split; [discriminate|reflexivity]|]. cbn. exact I. Qed.
+Lemma inst_ok_clean i : i_expired i = false -> dirty i = false -> inst_ok i.
+Proof. intros H1 H2. split; [intros _; split; [congruence|exact H2]|]. apply pend_cached_clean. exact H2. Qed.
 
 Lemma get_inst_oob s sd o : (length (heap (cn s sd)) <= o)%nat -> get_inst s sd o = blank_inst 0.
 Proof. intros H. unfold get_inst. apply nth_overflow. exact H. Qed.
@@ -39,7 +98,7 @@ Proof. intros H P o Ha. apply P. eapply alive_more_roots; eauto. Qed.
 (* the new state has no live object the old one had not, and the live ones are unchanged *)
 Lemma JX_transfer X X' s s' :
   JX X s -> cache_ok s' Par -> committed s' = committed s ->
-  (forall o, i_expired (get_inst s' Par o) = true -> no_vals (get_inst s' Par o) = true) ->
+  (forall o, inst_ok (get_inst s' Par o)) ->
   (forall o, alive s' Par X' o = true -> i_obsolete (get_inst s' Par o) = false ->
              (alive s Par X o = true /\ get_inst s' Par o = get_inst s Par o) \/
              shows (committed s) (get_inst s' Par o) = true) ->
@@ -67,9 +126,6 @@ Proof.
     + right. right. apply in_map_iff. exists e. auto.
     + subst o. apply alive_iff in B. exact B.
 Qed.
-
-Section Fresh.
-Variable cfg : config.
 
 (* ------------------------------------------------------------------ primitives on the parent side *)
 Lemma jx_read X q : hoare (JX X) (stmt_read Par q) (fun t s => JX X s /\ t = committed s) (JX X).
@@ -197,15 +253,12 @@ Proof.
 Qed.
 
 (* ------------------------------------------------------------------ shows *)
-Lemma shows_row t i r : tbl_lookup t (i_id i) = Some r -> i_vals i = map Some r -> shows t i = true.
+Lemma shows_vals_row t id r : tbl_lookup t id = Some r -> shows_vals t id (map Some r) = true.
 Proof.
-  unfold shows. intros -> ->. induction r as [|x r IH]; cbn; auto. rewrite val_eqb_refl. exact IH.
+  unfold shows_vals. intros ->. induction r as [|x r IH]; cbn; auto. rewrite val_eqb_refl. exact IH.
 Qed.
 
 (* fewer cached attributes: still shows *)
-Definition vals_le (a b : list (option val)) : Prop := Forall2 (fun x y => x = None \/ x = y) a b.
-Lemma vals_le_refl a : vals_le a a.
-Proof. induction a; constructor; auto. Qed.
 
 Lemma shows_go_le a b : vals_le a b -> forall r,
   (fix go (vals : list (option val)) (r : row) : bool :=
@@ -233,23 +286,43 @@ Proof.
     apply andb_true_iff in H. destruct H as [H1 H2]. rewrite H1. apply IH. exact H2.
 Qed.
 
-Lemma forallb_none_le a b : vals_le a b ->
-  forallb (fun v : option val => match v with None => true | Some _ => false end) b = true ->
-  forallb (fun v : option val => match v with None => true | Some _ => false end) a = true.
+Lemma shows_vals_le t id a b : vals_le a b -> shows_vals t id b = true -> shows_vals t id a = true.
 Proof.
-  induction 1 as [|x y a b Hxy Hab IH]; cbn; auto. intros H. apply andb_true_iff in H. destruct H as [H1 H2].
-  destruct Hxy as [ -> | -> ]; [apply IH; exact H2|]. rewrite H1. apply IH. exact H2.
-Qed.
-
-Lemma shows_le t i i' : i_id i' = i_id i -> vals_le (i_vals i') (i_vals i) -> shows t i = true -> shows t i' = true.
-Proof.
-  unfold shows. intros -> Hle. destruct (tbl_lookup t (i_id i)) as [r|].
+  unfold shows_vals. intros Hle. destruct (tbl_lookup t id) as [r|].
   - apply shows_go_le. exact Hle.
-  - apply forallb_none_le. exact Hle.
+  - apply (all_none_le a b Hle).
 Qed.
 
-Lemma vals_le_none (l : list (option val)) : vals_le (map (fun _ => None) l) l.
-Proof. induction l; cbn; constructor; auto. Qed.
+Lemma shows_le t i i' :
+  i_id i' = i_id i -> vals_le (mask (i_vals i') (i_pending i')) (mask (i_vals i) (i_pending i)) -> shows t i = true -> shows t i' = true.
+Proof. unfold shows. intros -> Hle. apply shows_vals_le. exact Hle. Qed.
+
+(* an instance whose attributes are exactly the row (whatever is queued) *)
+Lemma shows_row t i r : tbl_lookup t (i_id i) = Some r -> i_vals i = map Some r -> shows t i = true.
+Proof.
+  intros Hl Hv. unfold shows. rewrite Hv. eapply shows_vals_le; [apply mask_le|]. apply shows_vals_row. exact Hl.
+Qed.
+
+(* ... or the row with the queued values on top *)
+Lemma mask_overlay_le p : forall r, vals_le (mask (map Some (overlay p r)) p) (map Some r).
+Proof.
+  induction p as [|[x|] p IH]; intros r; cbn.
+  - destruct r; cbn; apply vals_le_refl.
+  - destruct r as [|y r]; cbn; [constructor|]. constructor; [left; reflexivity|apply IH].
+  - destruct r as [|y r]; cbn; [constructor|]. constructor; [right; reflexivity|apply IH].
+Qed.
+Lemma shows_overlay t i r :
+  tbl_lookup t (i_id i) = Some r -> i_vals i = map Some (overlay (i_pending i) r) -> shows t i = true.
+Proof.
+  intros Hl Hv. unfold shows. rewrite Hv. eapply shows_vals_le; [apply mask_overlay_le|]. apply shows_vals_row. exact Hl.
+Qed.
+Lemma pend_cached_overlay p : forall r, pend_cached (map Some (overlay p r)) p.
+Proof.
+  induction p as [|[x|] p IH]; intros r; cbn.
+  - destruct (map Some r); exact I.
+  - destruct r as [|y r]; cbn; [exact I|]. split; [right; reflexivity|apply IH].
+  - destruct r as [|y r]; cbn; [exact I|]. apply IH.
+Qed.
 
 (* ------------------------------------------------------------------ instance updates *)
 Lemma alive_with_heap s h X o : alive (with_heap s Par h) Par X o = alive s Par X o.
@@ -270,7 +343,7 @@ Qed.
 Lemma jx_upd X o f :
   keeps_id f ->
   hoare (fun s => JX X s /\
-                  (i_expired (f (get_inst s Par o)) = true -> no_vals (f (get_inst s Par o)) = true) /\
+                  inst_ok (f (get_inst s Par o)) /\
                   (alive s Par X o = true -> i_obsolete (f (get_inst s Par o)) = false ->
                    shows (committed s) (f (get_inst s Par o)) = true))
         (upd_inst Par o f) (fun _ s => JX X s) (JX X).
@@ -312,7 +385,7 @@ Proof.
 Qed.
 
 Lemma jx_new X i :
-  hoare (fun s => JX X s /\ shows (committed s) i = true /\ (i_expired i = true -> no_vals i = true))
+  hoare (fun s => JX X s /\ shows (committed s) i = true /\ inst_ok i)
         (new_inst Par i)
         (fun o s => JX (X ++ [o]) s /\ known s Par o (i_id i) /\ get_inst s Par o = i) (JX X).
 Proof.
@@ -350,19 +423,24 @@ Definition reload_of (r : row) (i : inst) : inst := i_with_expired (i_with_vals 
 
 Lemma kid_reload r : keeps_id (reload_of r). Proof. intros i; reflexivity. Qed.
 
-(* loading the committed row of its id into an instance (and clearing the flag) keeps everything *)
+Lemma inst_ok_novals i : no_vals i = true -> dirty i = false -> inst_ok i.
+Proof.
+  intros H1 H2. split; [intros _; split; [intros _; apply no_vals_no_db; exact H1|exact H2]|]. apply pend_cached_clean. exact H2.
+Qed.
+
+(* loading the committed row of its id into an instance with nothing queued (and clearing the flag) keeps everything *)
 Lemma jt_reload X t0 o r :
-  hoare (fun s => JT X t0 s /\ tbl_lookup t0 (i_id (get_inst s Par o)) = Some r)
+  hoare (fun s => JT X t0 s /\ tbl_lookup t0 (i_id (get_inst s Par o)) = Some r /\ dirty (get_inst s Par o) = false)
         (upd_inst Par o (reload_of r)) (fun _ s => JT X t0 s) (JT X t0).
 Proof.
-  intros s ([J Ht] & Hl).
+  intros s ([J Ht] & Hl & Hd).
   pose proof (jx_upd X o (reload_of r) (kid_reload r) s) as H.
   pose proof (db_upd Par o (reload_of r) (kid_reload r) s) as [D _].
   assert (Hpre : JX X s /\
-            (i_expired (reload_of r (get_inst s Par o)) = true -> no_vals (reload_of r (get_inst s Par o)) = true) /\
+            inst_ok (reload_of r (get_inst s Par o)) /\
             (alive s Par X o = true -> i_obsolete (reload_of r (get_inst s Par o)) = false ->
              shows (committed s) (reload_of r (get_inst s Par o)) = true)).
-  { split; [exact J|]. split; [discriminate|]. intros _ _. rewrite Ht. apply (shows_row t0 _ r); [exact Hl|reflexivity]. }
+  { split; [exact J|]. split; [apply inst_ok_clean; [reflexivity|exact Hd]|]. intros _ _. rewrite Ht. apply (shows_row t0 _ r); [exact Hl|reflexivity]. }
   specialize (H Hpre). destruct (upd_inst Par o (reload_of r) s) as [[u|e] s']; cbn in *; split; auto; congruence.
 Qed.
 
@@ -390,7 +468,7 @@ Lemma reload_pair_state s o r :
 Proof. unfold select_init. exact (upd_upd_state s o (fun i => i_with_vals i (map Some r)) (fun i => i_with_expired i false)). Qed.
 
 Lemma jt_reload_pair X t0 o r :
-  hoare (fun s => JT X t0 s /\ tbl_lookup t0 (i_id (get_inst s Par o)) = Some r)
+  hoare (fun s => JT X t0 s /\ tbl_lookup t0 (i_id (get_inst s Par o)) = Some r /\ dirty (get_inst s Par o) = false)
         (select_init Par o r ;;; upd_inst Par o (fun i => i_with_expired i false)) (fun _ s => JT X t0 s) (JT X t0).
 Proof.
   intros s Hpre. pose proof (jt_reload X t0 o r s Hpre) as H. pose proof (reload_pair_state s o r) as E.
@@ -400,23 +478,23 @@ Proof.
   unfold upd_inst, modify in H. cbv beta iota in H. exact H.
 Qed.
 
-(* filling a rooted, unflagged instance with the committed row of its id *)
+(* filling a rooted, unflagged instance with nothing queued with the committed row of its id *)
 Lemma jt_fill X t0 o r id :
   tbl_lookup t0 id = Some r ->
-  hoare (fun s => JT X t0 s /\ known s Par o id /\ i_expired (get_inst s Par o) = false)
+  hoare (fun s => JT X t0 s /\ known s Par o id /\ i_expired (get_inst s Par o) = false /\ dirty (get_inst s Par o) = false)
         (select_init Par o r)
         (fun _ s => JT X t0 s /\ known s Par o id) (JT X t0).
 Proof.
-  intros Hr s ([J Ht] & [Hb Hid] & Hfl). unfold select_init.
+  intros Hr s ([J Ht] & [Hb Hid] & Hfl & Hd). unfold select_init.
   pose proof (jx_upd X o (fun i => i_with_vals i (map Some r)) (kid_vals (map Some r)) s) as H.
   pose proof (db_upd Par o (fun i => i_with_vals i (map Some r)) (kid_vals (map Some r)) s) as [D _].
   pose proof (ext_upd Par o (fun i => i_with_vals i (map Some r)) (kid_vals (map Some r)) s) as Ex.
   assert (Hpre : JX X s /\
-            (i_expired (i_with_vals (get_inst s Par o) (map Some r)) = true -> no_vals (i_with_vals (get_inst s Par o) (map Some r)) = true) /\
+            inst_ok (i_with_vals (get_inst s Par o) (map Some r)) /\
             (alive s Par X o = true -> i_obsolete (i_with_vals (get_inst s Par o) (map Some r)) = false ->
              shows (committed s) (i_with_vals (get_inst s Par o) (map Some r)) = true)).
   { split; [exact J|]. split.
-    - cbn [i_expired i_with_vals]. rewrite Hfl. discriminate.
+    - apply inst_ok_clean; [exact Hfl|exact Hd].
     - intros _ _. rewrite Ht. apply (shows_row t0 _ r); [cbn [i_id i_with_vals]; rewrite Hid; exact Hr|reflexivity]. }
   specialize (H Hpre).
   destruct (upd_inst Par o (fun i => i_with_vals i (map Some r)) s) as [[u|e] s'] eqn:E; cbn in *.
@@ -445,9 +523,13 @@ Proof.
   - (* a hit: a live instance of this id *)
     destruct sel as [r|].
     + intros s [[J Hk] Ht]. destruct (Hk o eq_refl) as [[Hb Hid] Ha].
+      unfold bind at 1. unfold gets at 1. cbv beta iota.
+      destruct (dirty (get_inst s Par o)) eqn:Hd.
+      { (* something is queued: the fetched row is not loaded *)
+        unfold ret. split; [split; [apply JX_add_live; assumption|exact Ht]|split; assumption]. }
       pose proof (jt_reload_pair X t0 o r s) as H.
-      assert (Hpre : JT X t0 s /\ tbl_lookup t0 (i_id (get_inst s Par o)) = Some r)
-        by (split; [split; assumption|rewrite Hid; apply Hsel; reflexivity]).
+      assert (Hpre : JT X t0 s /\ tbl_lookup t0 (i_id (get_inst s Par o)) = Some r /\ dirty (get_inst s Par o) = false)
+        by (split; [split; assumption|split; [rewrite Hid; apply Hsel; reflexivity|exact Hd]]).
       specialize (H Hpre).
       assert (Hr : exists s1, (select_init Par o r ;;; upd_inst Par o (fun i => i_with_expired i false)) s = (Ret tt, s1) /\
                               slots s1 = slots s /\ cch s1 Par = cch s Par /\ Rext s s1).
@@ -463,19 +545,19 @@ Proof.
     + apply hoare_ret. intros s [[J Hk] Ht]. destruct (Hk o eq_refl) as [Hkn Ha]. split; [|exact Hkn].
       split; [|exact Ht]. apply JX_add_live; assumption.
   - (* a miss: a new instance *)
-    eapply hoare_bind with (R := fun o s => JT (X ++ [o]) t0 s /\ known s Par o id /\ i_expired (get_inst s Par o) = false).
+    eapply hoare_bind with (R := fun o s => JT (X ++ [o]) t0 s /\ known s Par o id /\ i_expired (get_inst s Par o) = false /\ dirty (get_inst s Par o) = false).
     { intros s [[J _] Ht]. pose proof (jx_new X (blank_inst id) s) as H.
-      assert (Hpre : JX X s /\ shows (committed s) (blank_inst id) = true /\ (i_expired (blank_inst id) = true -> no_vals (blank_inst id) = true))
-        by (split; [exact J|split; [apply shows_no_vals; reflexivity|discriminate]]).
+      assert (Hpre : JX X s /\ shows (committed s) (blank_inst id) = true /\ inst_ok (blank_inst id))
+        by (split; [exact J|split; [apply shows_no_vals; reflexivity|apply inst_ok_blank]]).
       specialize (H Hpre). pose proof (db_new Par (blank_inst id) s) as [D _].
       destruct (new_inst Par (blank_inst id) s) as [[o|e] s'] eqn:En; cbn in *.
-      - destruct H as (J' & Hk & Hg). split; [split; [exact J'|congruence]|]. split; [exact Hk|]. rewrite Hg. reflexivity.
+      - destruct H as (J' & Hk & Hg). split; [split; [exact J'|congruence]|]. split; [exact Hk|]. rewrite Hg. split; reflexivity.
       - split; [exact H|congruence]. }
     intros o.
     assert (Down : forall s, JT (X ++ [o]) t0 s -> JT X t0 s).
     { intros s [J Ht]. split; [|exact Ht]. eapply JX_less; [|exact J]. intros x Hx. apply in_or_app. auto. }
     assert (Fill : forall r, tbl_lookup t0 id = Some r ->
-              hoare (fun s => JT (X ++ [o]) t0 s /\ known s Par o id /\ i_expired (get_inst s Par o) = false)
+              hoare (fun s => JT (X ++ [o]) t0 s /\ known s Par o id /\ i_expired (get_inst s Par o) = false /\ dirty (get_inst s Par o) = false)
                     (select_init Par o r;;; cache_put cfg Par id o;;; ret o)
                     (fun o' s => JT (X ++ [o']) t0 s /\ known s Par o' id) (JT X t0)).
     { intros r Hr.
@@ -491,8 +573,8 @@ Proof.
       intro. apply hoare_ret. auto. }
     destruct sel as [r|].
     + apply Fill. apply Hsel. reflexivity.
-    + eapply hoare_bind with (R := fun r s => (JT (X ++ [o]) t0 s /\ known s Par o id /\ i_expired (get_inst s Par o) = false) /\ r = tbl_lookup t0 id).
-      { intros s ([J Ht] & Hk & Hfl). unfold db_select_one, bind, stmt_read. cbn. split; [split; [split; [exact J|exact Ht]|split; [exact Hk|exact Hfl]]|].
+    + eapply hoare_bind with (R := fun r s => (JT (X ++ [o]) t0 s /\ known s Par o id /\ i_expired (get_inst s Par o) = false /\ dirty (get_inst s Par o) = false) /\ r = tbl_lookup t0 id).
+      { intros s ([J Ht] & Hk & Hfl & Hd). unfold db_select_one, bind, stmt_read. cbn. split; [split; [split; [exact J|exact Ht]|split; [exact Hk|split; [exact Hfl|exact Hd]]]|].
         rewrite Ht. reflexivity. }
       intros [r|].
       * intros s [H Heq]. symmetry in Heq. exact (Fill r Heq s H).
@@ -533,27 +615,37 @@ Proof.
   intros s [J Ht].
   pose proof (jx_upd X o (fun i => i_with_expired i false) (kid_expired false) s) as H.
   assert (Hpre : JX X s /\
-            (i_expired (i_with_expired (get_inst s Par o) false) = true -> no_vals (i_with_expired (get_inst s Par o) false) = true) /\
+            inst_ok (i_with_expired (get_inst s Par o) false) /\
             (alive s Par X o = true -> i_obsolete (i_with_expired (get_inst s Par o) false) = false ->
              shows (committed s) (i_with_expired (get_inst s Par o) false) = true)).
-  { split; [exact J|]. split; [discriminate|]. intros Ha Hob. apply J; assumption. }
+  { split; [exact J|]. split.
+    - destruct J as (_ & He & _). destruct (He o) as (B & C). split; [|exact C].
+      intros El. destruct (B El) as [_ B2]. split; [discriminate|exact B2].
+    - intros Ha Hob. apply J; assumption. }
   specialize (H Hpre). unfold upd_inst, modify in *. cbv beta iota in *. split; [exact H|exact Ht].
 Qed.
 
-Lemma jt_fill0 X t0 o r id :
+(* loading row r' = the committed row r of its id, with the queued values (p) on top when something is queued *)
+Lemma jt_fill0 X t0 o r r' id p :
   tbl_lookup t0 id = Some r ->
-  hoare (fun s => JT X t0 s /\ i_id (get_inst s Par o) = id /\ i_expired (get_inst s Par o) = false)
-        (select_init Par o r) (fun _ s => JT X t0 s) (JT X t0).
+  (r' = r /\ existsb is_some p = false) \/ (r' = overlay p r /\ lazy cfg = true) ->
+  hoare (fun s => JT X t0 s /\ i_id (get_inst s Par o) = id /\ i_expired (get_inst s Par o) = false /\ i_pending (get_inst s Par o) = p)
+        (select_init Par o r') (fun _ s => JT X t0 s) (JT X t0).
 Proof.
-  intros Hr s ([J Ht] & Hid & Hfl). unfold select_init.
-  pose proof (jx_upd X o (fun i => i_with_vals i (map Some r)) (kid_vals (map Some r)) s) as H.
+  intros Hr Hc s ([J Ht] & Hid & Hfl & Hp). unfold select_init.
+  pose proof (jx_upd X o (fun i => i_with_vals i (map Some r')) (kid_vals (map Some r')) s) as H.
   assert (Hpre : JX X s /\
-            (i_expired (i_with_vals (get_inst s Par o) (map Some r)) = true -> no_vals (i_with_vals (get_inst s Par o) (map Some r)) = true) /\
-            (alive s Par X o = true -> i_obsolete (i_with_vals (get_inst s Par o) (map Some r)) = false ->
-             shows (committed s) (i_with_vals (get_inst s Par o) (map Some r)) = true)).
+            inst_ok (i_with_vals (get_inst s Par o) (map Some r')) /\
+            (alive s Par X o = true -> i_obsolete (i_with_vals (get_inst s Par o) (map Some r')) = false ->
+             shows (committed s) (i_with_vals (get_inst s Par o) (map Some r')) = true)).
   { split; [exact J|]. split.
-    - cbn [i_expired i_with_vals]. rewrite Hfl. discriminate.
-    - intros _ _. rewrite Ht. apply (shows_row t0 _ r); [cbn [i_id i_with_vals]; rewrite Hid; exact Hr|reflexivity]. }
+    - split.
+      + intros El. split; [cbn [i_expired i_with_vals]; rewrite Hfl; discriminate|].
+        destruct J as (_ & He & _). destruct (He o) as (B & _). apply (B El).
+      + cbn [i_vals i_pending i_with_vals]. rewrite Hp. destruct Hc as [[-> Hcl]|[-> _]]; [apply pend_cached_clean; exact Hcl|apply pend_cached_overlay].
+    - intros _ _. rewrite Ht. destruct Hc as [[-> Hcl]|[-> _]].
+      + apply (shows_row t0 _ r); [cbn [i_id i_with_vals]; rewrite Hid; exact Hr|reflexivity].
+      + apply (shows_overlay t0 _ r); [cbn [i_id i_with_vals]; rewrite Hid; exact Hr|cbn [i_vals i_pending i_with_vals]; rewrite Hp; reflexivity]. }
   specialize (H Hpre). unfold upd_inst, modify in *. cbv beta iota in *. split; [exact H|exact Ht].
 Qed.
 
@@ -567,69 +659,82 @@ Proof.
 Qed.
 
 (* attribute read *)
-Lemma jt_so_read X t0 o c : keeps (JT X t0) (so_read Par o c).
+Lemma jt_so_read X t0 o c : keeps (JT X t0) (so_read cfg Par o c).
 Proof.
   unfold so_read.
   eapply hoare_bind with (R := fun i s => JT X t0 s /\ i = get_inst s Par o); [apply hoare_gets; auto|].
   intros i. destruct (nth c (i_vals i) None) as [v|]; [apply hoare_ret; tauto|].
-  eapply hoare_bind with (R := fun _ s => JT X t0 s /\ (i_id (get_inst s Par o) = i_id i /\ i_expired (get_inst s Par o) = false)).
+  eapply hoare_bind with (R := fun _ s => JT X t0 s /\ (get_inst s Par o = i_with_expired i false /\ inst_ok i)).
   { intros s [Hjt ->]. pose proof (jt_unflag X t0 o s Hjt) as H. pose proof (unflag_get s o) as G.
+    assert (Hok : inst_ok (get_inst s Par o)) by (destruct Hjt as [(_ & He & _) _]; apply He).
     destruct (upd_inst Par o (fun i => i_with_expired i false) s) as [[u|e] s'] eqn:E; cbn [snd] in *.
-    - split; [exact H|]. rewrite G. split; reflexivity.
+    - split; [exact H|]. split; [exact G|exact Hok].
     - exact H. }
   intro.
-  eapply hoare_bind; [apply (jt_select_one X t0 (i_id i) (fun s => i_id (get_inst s Par o) = i_id i /\ i_expired (get_inst s Par o) = false)); auto|].
+  eapply hoare_bind; [apply (jt_select_one X t0 (i_id i) (fun s => get_inst s Par o = i_with_expired i false /\ inst_ok i)); auto|].
   intros [r|].
-  - intros s [[Hjt [Hid Hfl]] Heq]. symmetry in Heq.
-    pose proof (jt_fill0 X t0 o r (i_id i) Heq s (conj Hjt (conj Hid Hfl))) as H.
-    unfold bind. destruct (select_init Par o r s) as [[u|e] s']; cbn in *; exact H.
+  - intros s [[Hjt [Hg Hok]] Heq]. symmetry in Heq. cbv zeta.
+    set (r' := reloaded cfg i r).
+    assert (Hc : (r' = r /\ existsb is_some (i_pending i) = false) \/ (r' = overlay (i_pending i) r /\ lazy cfg = true)).
+    { unfold r', reloaded. destruct (lazy cfg) eqn:El; cbn [andb].
+      - destruct (dirty i) eqn:Ed; [right; auto|left; exact (conj eq_refl Ed)].
+      - left. split; [reflexivity|]. destruct Hok as (B & _). apply (B El). }
+    pose proof (jt_fill0 X t0 o r r' (i_id i) (i_pending i) Heq Hc s) as H.
+    assert (Hpre : JT X t0 s /\ i_id (get_inst s Par o) = i_id i /\ i_expired (get_inst s Par o) = false /\
+                   i_pending (get_inst s Par o) = i_pending i) by (rewrite Hg; auto).
+    specialize (H Hpre).
+    unfold bind. destruct (select_init Par o r' s) as [[u|e] s']; cbn in *; exact H.
   - intros s [[Hjt _] _]. exact Hjt.
 Qed.
 
-(* sync *)
-Lemma jt_so_sync X t0 o : keeps (JT X t0) (so_sync Par o).
+(* the reload of sync, once nothing is queued *)
+Lemma jt_so_reload X t0 o :
+  hoare (fun s => JT X t0 s /\ dirty (get_inst s Par o) = false) (so_reload Par o) (fun _ s => JT X t0 s) (JT X t0).
 Proof.
-  unfold so_sync.
-  eapply hoare_bind with (R := fun i s => JT X t0 s /\ i = get_inst s Par o); [apply hoare_gets; auto|].
+  unfold so_reload.
+  eapply hoare_bind with (R := fun i s => JT X t0 s /\ (i = get_inst s Par o /\ dirty i = false)).
+  { apply hoare_gets. intros s [H Hd]. auto. }
   intros i.
-  eapply hoare_bind; [apply (jt_select_one X t0 (i_id i) (fun s => i = get_inst s Par o)); auto|].
+  eapply hoare_bind; [apply (jt_select_one X t0 (i_id i) (fun s => i = get_inst s Par o /\ dirty i = false)); auto|].
   intros [r|].
-  - intros s [[Hjt Hi] Heq]. symmetry in Heq. subst i.
-    exact (jt_reload_pair X t0 o r s (conj Hjt Heq)).
+  - intros s [[Hjt [Hi Hd]] Heq]. symmetry in Heq. subst i.
+    exact (jt_reload_pair X t0 o r s (conj Hjt (conj Heq Hd))).
   - intros s [[Hjt _] _]. exact Hjt.
 Qed.
 
 (* expire *)
+Definition expired_of (i : inst) : inst :=
+  i_with_pending (i_with_vals i (map (fun _ => None) (i_vals i))) (no_queue (i_pending i)).
+Lemma expired_of_facts i : no_vals (expired_of i) = true /\ dirty (expired_of i) = false.
+Proof. split; [unfold no_vals, expired_of; cbn; apply forallb_none_map|unfold dirty, expired_of; cbn; apply existsb_no_queue]. Qed.
+
 Lemma jt_so_expire X t0 o : keeps (JT X t0) (so_expire cfg Par o).
 Proof.
   apply keeps_of_snd. intros s [J Ht]. rewrite so_expire_eq. cbv zeta.
-  set (vals' := map (fun _ : option val => @None val) (i_vals (get_inst s Par o))).
-  pose proof (vals_le_none (i_vals (get_inst s Par o))) as Hle. fold vals' in Hle.
-  (* first the attributes go *)
-  pose proof (jx_upd X o (fun i => i_with_vals i vals') (kid_vals vals') s) as H1.
-  assert (Hpre1 : JX X s /\
-            (i_expired (i_with_vals (get_inst s Par o) vals') = true -> no_vals (i_with_vals (get_inst s Par o) vals') = true) /\
-            (alive s Par X o = true -> i_obsolete (i_with_vals (get_inst s Par o) vals') = false ->
-             shows (committed s) (i_with_vals (get_inst s Par o) vals') = true)).
-  { split; [exact J|]. split; [intros _; unfold no_vals, vals'; cbn [i_vals i_with_vals]; apply forallb_none_map|].
-    intros Ha Hob. eapply shows_le; [| |apply J; [exact Ha|exact Hob]]; [reflexivity|exact Hle]. }
+  change (i_with_pending (i_with_vals (get_inst s Par o) (map (fun _ : option val => None) (i_vals (get_inst s Par o))))
+                         (no_queue (i_pending (get_inst s Par o)))) with (expired_of (get_inst s Par o)).
+  destruct (expired_of_facts (get_inst s Par o)) as [Hnv Hdt].
+  (* first the attributes and the queue go *)
+  pose proof (jx_upd X o expired_of (fun i => eq_refl) s) as H1.
+  assert (Hpre1 : JX X s /\ inst_ok (expired_of (get_inst s Par o)) /\
+            (alive s Par X o = true -> i_obsolete (expired_of (get_inst s Par o)) = false ->
+             shows (committed s) (expired_of (get_inst s Par o)) = true)).
+  { split; [exact J|]. split; [apply inst_ok_novals; assumption|]. intros _ _. apply shows_no_vals. exact Hnv. }
   specialize (H1 Hpre1). unfold upd_inst, modify in H1. cbv beta iota in H1.
-  set (s1 := with_heap s Par (set_nth o (i_with_vals (get_inst s Par o) vals') (heap (cn s Par)))) in *.
+  set (s1 := with_heap s Par (set_nth o (expired_of (get_inst s Par o)) (heap (cn s Par)))) in *.
   destruct (i_expired (get_inst s Par o)); [cbn [snd]; split; [exact H1|exact Ht]|].
   (* then the flag is set: nothing is cached any more *)
-  assert (Hnv : forallb (fun v : option val => match v with None => true | Some _ => false end) vals' = true)
-    by (apply forallb_none_map).
   pose proof (jx_upd X o (fun i => i_with_expired i true) (kid_expired true) s1) as H2.
-  assert (G1 : get_inst s1 Par o = if Nat.ltb o (length (heap (cn s Par))) then i_with_vals (get_inst s Par o) vals' else get_inst s Par o).
-  { unfold s1. pose proof (get_inst_upd s o (fun i => i_with_vals i vals') o) as G. cbv beta in G. rewrite G, Nat.eqb_refl. reflexivity. }
-  assert (Hnv1 : no_vals (get_inst s1 Par o) = true).
-  { rewrite G1. destruct (Nat.ltb o (length (heap (cn s Par)))) eqn:L; [exact Hnv|].
-    apply Nat.ltb_ge in L. rewrite (get_inst_oob s Par o L). reflexivity. }
-  assert (Hpre2 : JX X s1 /\
-            (i_expired (i_with_expired (get_inst s1 Par o) true) = true -> no_vals (i_with_expired (get_inst s1 Par o) true) = true) /\
+  assert (G1 : get_inst s1 Par o = if Nat.ltb o (length (heap (cn s Par))) then expired_of (get_inst s Par o) else get_inst s Par o).
+  { unfold s1. pose proof (get_inst_upd s o expired_of o) as G. rewrite G, Nat.eqb_refl. reflexivity. }
+  assert (Hnv1 : no_vals (get_inst s1 Par o) = true /\ dirty (get_inst s1 Par o) = false).
+  { rewrite G1. destruct (Nat.ltb o (length (heap (cn s Par)))) eqn:L; [split; assumption|].
+    apply Nat.ltb_ge in L. rewrite (get_inst_oob s Par o L). split; reflexivity. }
+  destruct Hnv1 as [Hnv1 Hdt1].
+  assert (Hpre2 : JX X s1 /\ inst_ok (i_with_expired (get_inst s1 Par o) true) /\
             (alive s1 Par X o = true -> i_obsolete (i_with_expired (get_inst s1 Par o) true) = false ->
              shows (committed s1) (i_with_expired (get_inst s1 Par o) true) = true)).
-  { split; [exact H1|]. split; [intros _; exact Hnv1|]. intros _ _. apply shows_no_vals. exact Hnv1. }
+  { split; [exact H1|]. split; [apply inst_ok_novals; [exact Hnv1|exact Hdt1]|]. intros _ _. apply shows_no_vals. exact Hnv1. }
   specialize (H2 Hpre2). unfold upd_inst, modify in H2. cbv beta iota in H2.
   set (s2 := with_heap s1 Par (set_nth o (i_with_expired (get_inst s1 Par o) true) (heap (cn s1 Par)))) in *.
   pose proof (jt_keeps X t0 _ (jx_cache_expire X (i_id (get_inst s Par o))) (db_cache_expire Par _) s2) as H3.
@@ -675,11 +780,22 @@ Proof.
     + apply IH; [lia|exact H].
 Qed.
 
+Lemma mask_set_le c v : forall vals p, vals_le (mask (set_nth c (Some v) vals) p) (set_nth c (Some v) (mask vals p)).
+Proof.
+  induction c as [|c IH]; intros vals p; destruct vals as [|w vals]; cbn.
+  - destruct p; constructor.
+  - destruct p as [|[x|] p]; cbn; [apply vals_le_refl|constructor; [left; reflexivity|apply vals_le_refl]|apply vals_le_refl].
+  - destruct p; constructor.
+  - destruct p as [|[x|] p]; cbn; [apply vals_le_refl|constructor; [right; reflexivity|apply IH]|constructor; [right; reflexivity|apply IH]].
+Qed.
+
 Lemma shows_set t i r c v :
   tbl_lookup t (i_id i) = Some r -> (c < length r)%nat -> shows t i = true ->
   shows (tbl_update (i_id i) c v t) (set_val c v i) = true.
 Proof.
-  intros Hl Hc H. unfold shows in *. cbn [i_id set_val i_with_vals i_vals]. rewrite (lookup_update_same _ c v t r Hl). rewrite Hl in H.
+  intros Hl Hc H. unfold shows in *. cbn [i_id set_val i_with_vals i_vals i_pending].
+  eapply shows_vals_le; [apply mask_set_le|].
+  unfold shows_vals in *. rewrite (lookup_update_same _ c v t r Hl). rewrite Hl in H.
   apply shows_go_set; assumption.
 Qed.
 
@@ -688,7 +804,80 @@ Proof.
   intros H. destruct (tbl_lookup t (i_id i)) as [r'|] eqn:E.
   - rewrite (shows_same_row t (snd (tbl_insert r t))); [exact H|].
     unfold tbl_insert, tbl_lookup in *. cbn. rewrite (assoc_app_some _ _ _ _ E), E. reflexivity.
-  - apply shows_no_vals. unfold shows in H. rewrite E in H. exact H.
+  - apply shows_no_db_vals. unfold shows, shows_vals in H. rewrite E in H. exact H.
+Qed.
+
+(* a queued assignment: column c gets a queued value and caches it *)
+Lemma mask_set_both_le c v : forall vals p, (c < length p)%nat ->
+  vals_le (mask (set_nth c (Some v) vals) (set_nth c (Some v) p)) (mask vals p).
+Proof.
+  induction c as [|c IH]; intros vals p Hc; destruct p as [|x p]; cbn in Hc; try lia; destruct vals as [|w vals]; cbn.
+  - constructor.
+  - destruct x; constructor; try apply vals_le_refl; left; reflexivity.
+  - constructor.
+  - destruct x; constructor; try (right; reflexivity); apply IH; lia.
+Qed.
+Lemma pend_cached_set c v : forall vals p, pend_cached vals p -> pend_cached (set_nth c (Some v) vals) (set_nth c (Some v) p).
+Proof.
+  induction c as [|c IH]; intros vals p H; destruct vals as [|w vals]; cbn; try exact I; destruct p as [|x p]; cbn; try exact I.
+  - split; [right; reflexivity|]. destruct x; cbn in H; tauto.
+  - destruct x; cbn in H; [split; [tauto|apply IH; tauto]|apply IH; exact H].
+Qed.
+
+(* writing the queue: the row gets the queued values on top, the queue is emptied *)
+Lemma lookup_update_cols_other id id' p t : id <> id' -> tbl_lookup (tbl_update_cols id p t) id' = tbl_lookup t id'.
+Proof.
+  intros H. unfold tbl_update_cols, tbl_lookup. destruct (assoc id (t_rows t)); [|reflexivity]. cbn. apply assoc_set_other. exact H.
+Qed.
+Lemma lookup_update_cols_same id p t r : tbl_lookup t id = Some r -> tbl_lookup (tbl_update_cols id p t) id = Some (overlay p r).
+Proof. unfold tbl_update_cols, tbl_lookup. intros ->. cbn. apply assoc_set_same. Qed.
+
+Lemma overlay_nil p : overlay p [] = [].
+Proof. destruct p as [|[x|] p]; reflexivity. Qed.
+
+Lemma go_synced : forall (vals p : list (option val)) (r : row),
+  pend_cached vals p -> fitsb p r = true ->
+  (fix go (vals : list (option val)) (r : row) : bool :=
+     match vals, r with
+     | [], _ => true
+     | None :: vs, _ :: rs => go vs rs
+     | Some v :: vs, x :: rs => val_eqb v x && go vs rs
+     | Some _ :: _, [] => false
+     | None :: vs, [] => go vs []
+     end) (mask vals p) r = true ->
+  (fix go (vals : list (option val)) (r : row) : bool :=
+     match vals, r with
+     | [], _ => true
+     | None :: vs, _ :: rs => go vs rs
+     | Some v :: vs, x :: rs => val_eqb v x && go vs rs
+     | Some _ :: _, [] => false
+     | None :: vs, [] => go vs []
+     end) vals (overlay p r) = true.
+Proof.
+  induction vals as [|w vs IH]; intros p r Hp Hf H; [reflexivity|].
+  destruct p as [|[x|] ps].
+  - cbn [mask] in H. destruct r; exact H.
+  - destruct r as [|y rs]; [cbn in Hf; discriminate|]. cbn [overlay]. cbn [pend_cached] in Hp. destruct Hp as [Hw Hp].
+    cbn [mask] in H. cbn [fitsb] in Hf.
+    destruct Hw as [->| ->].
+    + apply (IH ps rs Hp Hf). exact H.
+    + cbn. rewrite val_eqb_refl. cbn. apply (IH ps rs Hp Hf). exact H.
+  - cbn [pend_cached] in Hp. cbn [mask] in H. destruct r as [|y rs].
+    + cbn [overlay]. cbn [fitsb] in Hf. destruct w as [w|]; [cbn in H; discriminate|].
+      specialize (IH ps [] Hp Hf). rewrite overlay_nil in IH. apply IH. exact H.
+    + cbn [overlay]. cbn [fitsb] in Hf. destruct w as [w|].
+      * apply andb_true_iff in H. destruct H as [H1 H2]. cbn. rewrite H1. cbn. apply (IH ps rs Hp Hf). exact H2.
+      * apply (IH ps rs Hp Hf). exact H.
+Qed.
+
+Lemma shows_synced t i r :
+  tbl_lookup t (i_id i) = Some r -> fitsb (i_pending i) r = true -> pend_cached (i_vals i) (i_pending i) -> shows t i = true ->
+  shows (tbl_update_cols (i_id i) (i_pending i) t) (i_with_pending i (no_queue (i_pending i))) = true.
+Proof.
+  intros Hl Hf Hp H. unfold shows in *. cbn [i_id i_vals i_pending i_with_pending].
+  rewrite mask_clean by apply existsb_no_queue.
+  unfold shows_vals in *. rewrite (lookup_update_cols_same _ _ t r Hl). rewrite Hl in H.
+  apply go_synced; assumption.
 Qed.
 
 (* the guards of the history theorem, as propositions *)
@@ -699,35 +888,57 @@ Definition others_blank (s : st) (o : nat) : Prop :=
 Lemma with_heap_same s : with_heap s Par (heap (cn s Par)) = s.
 Proof. destruct s as [[] [] ? ? ? ? ? ?]. reflexivity. Qed.
 
+(* an assignment through a parent-side instance: queued (lazyUpdate), or written at once *)
 Lemma jx_so_set s o c v :
-  JX [] s -> others_blank s o ->
-  (exists r, tbl_lookup (committed s) (i_id (get_inst s Par o)) = Some r /\ (c < length r)%nat) ->
-  JX [] (snd (so_set Par o c v s)).
+  JX [] s ->
+  (if lazy cfg then (c < length (i_pending (get_inst s Par o)))%nat
+   else others_blank s o /\
+        exists r, tbl_lookup (committed s) (i_id (get_inst s Par o)) = Some r /\ (c < length r)%nat) ->
+  JX [] (snd (so_set cfg Par o c v s)).
 Proof.
-  intros J Hob (r & Hl & Hc). pose proof J as (Hcok & Hexp & Hpf).
-  unfold so_set, bind, gets, db_update, stmt_write. cbv beta iota.
-  destruct (pending s) eqn:Ep; [exact J|]. cbn [fst snd].
+  intros J Hg. pose proof J as (Hcok & Hexp & Hpf).
+  unfold so_set, bind, gets. cbv beta iota. destruct (lazy cfg) eqn:El.
+  { (* queued: no statement; column c caches and queues v *)
+    set (f := fun i => i_with_pending (set_val c v i) (set_nth c (Some v) (i_pending i))).
+    pose proof (jx_upd [] o f (fun i => eq_refl) s) as H.
+    assert (Hle : vals_le (mask (i_vals (f (get_inst s Par o))) (i_pending (f (get_inst s Par o))))
+                          (mask (i_vals (get_inst s Par o)) (i_pending (get_inst s Par o))))
+      by (unfold f; cbn [i_vals i_pending i_with_pending set_val i_with_vals]; apply mask_set_both_le; exact Hg).
+    assert (Hpre : JX [] s /\ inst_ok (f (get_inst s Par o)) /\
+              (alive s Par [] o = true -> i_obsolete (f (get_inst s Par o)) = false ->
+               shows (committed s) (f (get_inst s Par o)) = true)).
+    { split; [exact J|]. split.
+      - split; [intros E; rewrite El in E; discriminate|].
+        unfold f. cbn [i_vals i_pending i_with_pending set_val i_with_vals]. apply pend_cached_set. apply (Hexp o).
+      - intros Ha Hob. apply (shows_le (committed s) (get_inst s Par o) (f (get_inst s Par o)) eq_refl Hle). apply Hpf; [exact Ha|exact Hob]. }
+    specialize (H Hpre). destruct (upd_inst Par o f s) as [[u|e] s']; exact H. }
+  destruct Hg as (Hob & r & Hl & Hc).
+  unfold db_update, stmt_write. cbv beta iota.
+  destruct (pending s) eqn:Ep; [exact J|].
+  match goal with |- context [if ?b then _ else _] => destruct b end; [exact J|]. cbn [fst snd].
   set (i := get_inst s Par o) in *. set (t1 := tbl_update (i_id i) c v (committed s)).
   set (s1 := with_committed (with_log s (SUpdate Par (i_id i) c :: log s)) t1).
+  assert (Hcl : dirty i = false) by (destruct (Hexp o) as (B & _); apply (B El)).
   (* the state after the UPDATE and (unless flagged) the caching *)
   assert (Fin : forall s2, cache_ok s2 Par -> committed s2 = t1 ->
             (forall o', alive s2 Par [] o' = alive s Par [] o') ->
-            (forall o', (get_inst s2 Par o' = get_inst s Par o' /\ (o' = o -> no_vals i = true)) \/
+            (forall o', (get_inst s2 Par o' = get_inst s Par o' /\ (o' = o -> no_db_vals i = true)) \/
                         (o' = o /\ i_expired i = false /\ get_inst s2 Par o' = set_val c v i)) ->
             JX [] s2).
   { intros s2 C2 T2 A2 G2. split; [exact C2|]. split.
     - intros o'. destruct (G2 o') as [[E _]|(_ & Hfl & E)]; rewrite E; [apply Hexp|].
-      cbn [i_expired set_val i_with_vals]. rewrite Hfl. discriminate.
+      split; [intros _; split; [cbn [i_expired set_val i_with_vals]; rewrite Hfl; discriminate|exact Hcl]|].
+      apply pend_cached_clean. exact Hcl.
     - intros o' Ha Hobs. rewrite A2 in Ha. rewrite T2.
       destruct (G2 o') as [[E Hn]|(-> & Hfl & E)]; rewrite E in *.
-      + destruct (Nat.eq_dec o' o) as [->|Hne]; [apply shows_no_vals; apply Hn; reflexivity|].
+      + destruct (Nat.eq_dec o' o) as [->|Hne]; [apply shows_no_db_vals; apply Hn; reflexivity|].
         destruct (Z.eq_dec (i_id (get_inst s Par o')) (i_id i)) as [Eid|Nid].
         * apply shows_no_vals. apply Hob; auto.
         * rewrite (shows_same_row (committed s) t1); [apply Hpf; assumption|].
           apply lookup_update_other. congruence.
       + apply (shows_set (committed s) i r c v Hl Hc). apply Hpf; [exact Ha|exact Hobs]. }
   destruct (i_expired i) eqn:Hfl; unfold ret, upd_inst, modify; cbv beta iota; cbn [snd].
-  - apply Fin; auto. intros o'. left. split; [reflexivity|]. intros _. apply Hexp. exact Hfl.
+  - apply Fin; auto. intros o'. left. split; [reflexivity|]. intros _. destruct (Hexp o) as (B & _). apply (B El). exact Hfl.
   - apply Fin.
     + apply (ok_upd Par o (set_val c v) (kid_set_val c v) s1 Hcok).
     + reflexivity.
@@ -738,6 +949,52 @@ Proof.
       * right. apply andb_true_iff in E. destruct E as [E _]. apply Nat.eqb_eq in E. split; [exact E|]. split; [reflexivity|exact G].
       * left. split; [exact G|]. intros ->. rewrite Nat.eqb_refl in E. cbn in E. apply Nat.ltb_ge in E.
         unfold i. rewrite (get_inst_oob s Par o E). reflexivity.
+Qed.
+
+(* syncUpdate of a parent-side instance *)
+Lemma jx_so_sync_update s o :
+  JX [] s ->
+  (dirty (get_inst s Par o) = true -> pending s = None ->
+   others_blank s o /\
+   exists r, tbl_lookup (committed s) (i_id (get_inst s Par o)) = Some r /\ fitsb (i_pending (get_inst s Par o)) r = true) ->
+  JX [] (snd (so_sync_update cfg Par o s)) /\
+  (fst (so_sync_update cfg Par o s) = Ret tt -> dirty (get_inst (snd (so_sync_update cfg Par o s)) Par o) = false).
+Proof.
+  intros J Hg. pose proof J as (Hcok & Hexp & Hpf).
+  unfold so_sync_update, bind, gets. cbv beta iota.
+  destruct (dirty (get_inst s Par o)) eqn:Hd; [|split; [exact J|intros _; exact Hd]].
+  unfold db_update_cols, stmt_write. cbv beta iota.
+  destruct (pending s) eqn:Ep; [split; [exact J|discriminate]|].
+  match goal with |- context [if ?b then _ else _] => destruct b end; [split; [exact J|discriminate]|]. cbn [fst snd].
+  destruct (Hg eq_refl eq_refl) as (Hob & r & Hl & Hf).
+  set (i := get_inst s Par o) in *. set (t1 := tbl_update_cols (i_id i) (i_pending i) (committed s)).
+  set (q := match queued_from 0 (i_pending i) with [(c, _)] => SUpdate Par (i_id i) c | l => SUpdateCols Par (i_id i) (map fst l) end).
+  set (s1 := with_committed (with_log s (q :: log s)) t1).
+  set (f := fun i0 : inst => i_with_pending i0 (no_queue (i_pending i0))).
+  unfold upd_inst, modify. cbv beta iota. cbn [fst snd].
+  change (get_inst s1 Par o) with i. change (heap (cn s1 Par)) with (heap (cn s Par)).
+  set (s2 := with_heap s1 Par (set_nth o (f i) (heap (cn s Par)))).
+  assert (G : forall o', get_inst s2 Par o' = if Nat.eqb o' o && Nat.ltb o (length (heap (cn s Par))) then f i else get_inst s Par o').
+  { intros o'. pose proof (get_inst_upd s1 o f o') as G. exact G. }
+  assert (Hin : (o < length (heap (cn s Par)))%nat).
+  { destruct (Nat.lt_ge_cases o (length (heap (cn s Par)))) as [L|L]; [exact L|].
+    exfalso. unfold i in Hd. rewrite (get_inst_oob s Par o L) in Hd. discriminate. }
+  split.
+  - split; [apply (ok_upd Par o f (fun i0 => eq_refl) s1 Hcok)|]. split.
+    + intros o'. rewrite G. destruct (Nat.eqb o' o && Nat.ltb o (length (heap (cn s Par)))); [|apply Hexp].
+      destruct (Hexp o) as (B & C). fold i in B, C. split.
+      * intros El. destruct (B El) as [_ B2]. rewrite Hd in B2. discriminate.
+      * unfold f. cbn [i_vals i_pending i_with_pending]. apply pend_cached_clean. apply existsb_no_queue.
+    + intros o' Ha Hobs. change (alive s2 Par [] o') with (alive s Par [] o') in Ha. change (committed s2) with t1.
+      rewrite G in *. destruct (Nat.eqb o' o && Nat.ltb o (length (heap (cn s Par)))) eqn:E.
+      * apply andb_true_iff in E. destruct E as [E _]. apply Nat.eqb_eq in E. subst o'.
+        apply (shows_synced (committed s) i r Hl Hf); [apply (Hexp o)|apply Hpf; [exact Ha|exact Hobs]].
+      * destruct (Nat.eq_dec o' o) as [->|Hne].
+        { exfalso. rewrite Nat.eqb_refl in E. cbn [andb] in E. apply Nat.ltb_ge in E. exact (Nat.lt_irrefl _ (Nat.lt_le_trans _ _ _ Hin E)). }
+        destruct (Z.eq_dec (i_id (get_inst s Par o')) (i_id i)) as [Eid|Nid].
+        -- apply shows_no_vals. apply Hob; auto.
+        -- rewrite (shows_same_row (committed s) t1); [apply Hpf; assumption|]. apply lookup_update_cols_other. congruence.
+  - intros _. rewrite G, Nat.eqb_refl. apply Nat.ltb_lt in Hin. rewrite Hin. cbn [andb]. unfold f, dirty. cbn. apply existsb_no_queue.
 Qed.
 
 Lemma jx_so_destroy s o :
@@ -820,7 +1077,8 @@ Lemma jx_so_create s a b :
 Proof.
   intros J Hok. pose proof J as (Hcok & Hexp & Hpf).
   unfold so_create. unfold bind at 1. unfold db_insert, stmt_write. cbv beta iota.
-  destruct (pending s) eqn:Ep; [exact J|]. cbn [fst snd tbl_insert].
+  destruct (pending s) eqn:Ep; [exact J|].
+  match goal with |- context [if ?b then _ else _] => destruct b end; [exact J|]. cbn [fst snd tbl_insert].
   set (id := t_next (committed s)).
   set (t1 := {| t_rows := t_rows (committed s) ++ [(id, [a; b])]; t_next := id + 1 |}).
   set (s1 := with_committed (with_log s (SInsert Par :: log s)) t1).
@@ -832,28 +1090,27 @@ Proof.
   { split; [|reflexivity]. split; [exact Hcok|]. split; [exact Hexp|].
     intros o Ha Hobs. change (committed s1) with (snd (tbl_insert [a; b] (committed s))). apply shows_insert. apply Hpf; assumption. }
   (* the rest of the constructor, from the state after the INSERT *)
-  set (rest := (o <- new_inst Par {| i_id := id; i_vals := [Some a; Some b]; i_expired := false; i_obsolete := false |};;
+  set (rest := (o <- new_inst Par {| i_id := id; i_vals := [Some a; Some b]; i_expired := false; i_obsolete := false; i_pending := [None; None] |};;
                 cache_created cfg Par id o;;;
                 r <- db_select_one Par id;;
                 match r with Some r0 => select_init Par o r0;;; ret o | None => raise ENotFound end)).
   assert (H : hoare (JT [] t1) rest (fun o s' => JT [o] t1 s') (JT [] t1)).
   { unfold rest.
-    eapply hoare_bind with (R := fun o s' => JT [o] t1 s' /\ known s' Par o id /\ i_expired (get_inst s' Par o) = false).
+    eapply hoare_bind with (R := fun o s' => JT [o] t1 s' /\ known s' Par o id /\ i_expired (get_inst s' Par o) = false /\ i_pending (get_inst s' Par o) = [None; None]).
     { intros s0 [J0 Ht0].
-      pose proof (jx_new [] {| i_id := id; i_vals := [Some a; Some b]; i_expired := false; i_obsolete := false |} s0) as Hn.
-      assert (Hpre : JX [] s0 /\ shows (committed s0) {| i_id := id; i_vals := [Some a; Some b]; i_expired := false; i_obsolete := false |} = true /\
-                     (i_expired {| i_id := id; i_vals := [Some a; Some b]; i_expired := false; i_obsolete := false |} = true ->
-                      no_vals {| i_id := id; i_vals := [Some a; Some b]; i_expired := false; i_obsolete := false |} = true)).
-      { split; [exact J0|]. split; [|discriminate]. rewrite Ht0. apply (shows_row t1 _ [a; b]); [exact Hl1|reflexivity]. }
-      specialize (Hn Hpre). pose proof (db_new Par {| i_id := id; i_vals := [Some a; Some b]; i_expired := false; i_obsolete := false |} s0) as [D _].
+      pose proof (jx_new [] {| i_id := id; i_vals := [Some a; Some b]; i_expired := false; i_obsolete := false; i_pending := [None; None] |} s0) as Hn.
+      assert (Hpre : JX [] s0 /\ shows (committed s0) {| i_id := id; i_vals := [Some a; Some b]; i_expired := false; i_obsolete := false; i_pending := [None; None] |} = true /\
+                     inst_ok {| i_id := id; i_vals := [Some a; Some b]; i_expired := false; i_obsolete := false; i_pending := [None; None] |}).
+      { split; [exact J0|]. split; [|apply inst_ok_clean; reflexivity]. rewrite Ht0. apply (shows_row t1 _ [a; b]); [exact Hl1|reflexivity]. }
+      specialize (Hn Hpre). pose proof (db_new Par {| i_id := id; i_vals := [Some a; Some b]; i_expired := false; i_obsolete := false; i_pending := [None; None] |} s0) as [D _].
       destruct (new_inst Par _ s0) as [[o|e] s'] eqn:En; cbn in *.
-      - destruct Hn as (J' & Hk & Hg). split; [split; [exact J'|congruence]|]. split; [exact Hk|]. rewrite Hg. reflexivity.
+      - destruct Hn as (J' & Hk & Hg). split; [split; [exact J'|congruence]|]. split; [exact Hk|]. rewrite Hg. split; reflexivity.
       - split; [exact Hn|congruence]. }
     intros o.
     assert (Down : forall s0, JT [o] t1 s0 -> JT [] t1 s0).
     { intros s0 [J0 Ht0]. split; [|exact Ht0]. eapply JX_less; [|exact J0]. intros x []. }
-    eapply hoare_bind with (R := fun _ s' => JT [o] t1 s' /\ i_id (get_inst s' Par o) = id /\ i_expired (get_inst s' Par o) = false).
-    { intros s0 ([J0 Ht0] & Hk & Hfl).
+    eapply hoare_bind with (R := fun _ s' => JT [o] t1 s' /\ i_id (get_inst s' Par o) = id /\ i_expired (get_inst s' Par o) = false /\ i_pending (get_inst s' Par o) = [None; None]).
+    { intros s0 ([J0 Ht0] & Hk & Hfl & Hpn).
       pose proof (jx_cache_created [o] id o s0) as Hc.
       assert (Hpre : JX [o] s0 /\ known s0 Par o id /\ In o [o]) by (split; [exact J0|split; [exact Hk|left; reflexivity]]).
       specialize (Hc Hpre). pose proof (db_cache_created Par id o s0) as [D _].
@@ -863,14 +1120,14 @@ Proof.
                       (fun x => eq_refl) (fun x y z H1 H2 => eq_trans H2 H1)
                       (fun c x => eq_refl) id o s0) as Hh. cbv beta in Hh. unfold get_inst. rewrite Hh. reflexivity. }
       destruct (cache_created cfg Par id o s0) as [[u|e] s'] eqn:Ec; cbn [snd] in *.
-      - destruct Hc as [J' Hk']. split; [split; [exact J'|congruence]|]. rewrite Hg. destruct Hk as [_ Hid]. split; [exact Hid|exact Hfl].
+      - destruct Hc as [J' Hk']. split; [split; [exact J'|congruence]|]. rewrite Hg. destruct Hk as [_ Hid]. split; [exact Hid|split; [exact Hfl|exact Hpn]].
       - apply Down. split; [exact Hc|congruence]. }
     intro.
-    eapply hoare_bind with (R := fun r s0 => (JT [o] t1 s0 /\ (i_id (get_inst s0 Par o) = id /\ i_expired (get_inst s0 Par o) = false)) /\ r = tbl_lookup t1 id).
-    { eapply hoare_conseq; [apply (jt_select_one [o] t1 id (fun s0 => i_id (get_inst s0 Par o) = id /\ i_expired (get_inst s0 Par o) = false)); auto|auto|auto|apply Down]. }
+    eapply hoare_bind with (R := fun r s0 => (JT [o] t1 s0 /\ (i_id (get_inst s0 Par o) = id /\ i_expired (get_inst s0 Par o) = false /\ i_pending (get_inst s0 Par o) = [None; None])) /\ r = tbl_lookup t1 id).
+    { eapply hoare_conseq; [apply (jt_select_one [o] t1 id (fun s0 => i_id (get_inst s0 Par o) = id /\ i_expired (get_inst s0 Par o) = false /\ i_pending (get_inst s0 Par o) = [None; None])); auto|auto|auto|apply Down]. }
     intros [r0|].
-    - intros s0 [[Hjt [Hid Hfl]] Heq]. symmetry in Heq.
-      pose proof (jt_fill0 [o] t1 o r0 id Heq s0 (conj Hjt (conj Hid Hfl))) as Hf.
+    - intros s0 [[Hjt [Hid [Hfl Hpn]]] Heq]. symmetry in Heq.
+      pose proof (jt_fill0 [o] t1 o r0 r0 id [None; None] Heq (or_introl (conj eq_refl eq_refl)) s0 (conj Hjt (conj Hid (conj Hfl Hpn)))) as Hf.
       unfold bind. destruct (select_init Par o r0 s0) as [[u|e] s']; cbn in *; [exact Hf|apply Down; exact Hf].
     - intros s0 [[Hjt _] _]. cbn. apply Down. exact Hjt. }
   specialize (H s1 J1).
@@ -967,20 +1224,24 @@ Proof.
   - (* count *) inversion Hs; subst sd. unfold bind, stmt_read. cbn. exact J.
   - (* read *) unfold handle, bind, gets. cbv beta iota. destruct (nth h (slots s) None) as [[sd x]|] eqn:E; [|discriminate].
     inversion Hs; subst sd. unfold ret at 1. cbv beta iota. cbn [fst snd].
-    pose proof (jt_so_read [] t0 x c s Jt) as H. destruct (so_read Par x c s) as [[v|e] s']; cbn; apply H.
+    pose proof (jt_so_read [] t0 x c s Jt) as H. destruct (so_read cfg Par x c s) as [[v|e] s']; cbn; apply H.
   - (* assignment *) unfold handle, bind, gets. cbv beta iota. destruct (nth h (slots s) None) as [[sd x]|] eqn:E; [|discriminate].
     inversion Hs; subst sd. unfold ret at 1. cbv beta iota. cbn [fst snd].
     cbn [step_ok] in Hg. rewrite E in Hg.
-    destruct (pending s) eqn:Ep.
-    + (* refused: the transaction holds the lock *)
-      assert (Es : snd (so_set Par x c v s) = with_log s (SUpdate Par (i_id (get_inst s Par x)) c :: log s)).
-      { unfold so_set, bind, gets, db_update, stmt_write. cbv beta iota. rewrite Ep. reflexivity. }
-      destruct (so_set Par x c v s) as [[u|e] s'] eqn:Eq; cbn [snd] in *; subst s'; exact J.
-    + apply andb_true_iff in Hg. destruct Hg as [Hg1 Hg2].
-      destruct (tbl_lookup (committed s) (i_id (get_inst s Par x))) as [r|] eqn:El; [|discriminate].
-      apply Nat.ltb_lt in Hg2.
-      pose proof (jx_so_set s x c v J (others_blankb_ok s x Hg1) (ex_intro _ r (conj El Hg2))) as H.
-      destruct (so_set Par x c v s) as [[u|e] s']; cbn; exact H.
+    pose proof (jx_so_set s x c v J) as H.
+    destruct (lazy cfg) eqn:El.
+    + (* queued *)
+      apply Nat.ltb_lt in Hg. specialize (H Hg). destruct (so_set cfg Par x c v s) as [[u|e] s']; cbn; exact H.
+    + destruct (pending s) eqn:Ep.
+      * (* refused: the transaction holds the lock *)
+        assert (Es : snd (so_set cfg Par x c v s) = with_log s (SUpdate Par (i_id (get_inst s Par x)) c :: log s)).
+        { unfold so_set, bind, gets, db_update, stmt_write. cbv beta iota. rewrite El, Ep. reflexivity. }
+        destruct (so_set cfg Par x c v s) as [[u|e] s'] eqn:Eq; cbn [snd] in *; subst s'; exact J.
+      * apply andb_true_iff in Hg. destruct Hg as [Hg1 Hg2].
+        destruct (tbl_lookup (committed s) (i_id (get_inst s Par x))) as [r|] eqn:El2; [|discriminate].
+        apply Nat.ltb_lt in Hg2.
+        specialize (H (conj (others_blankb_ok s x Hg1) (ex_intro _ r (conj eq_refl Hg2)))).
+        destruct (so_set cfg Par x c v s) as [[u|e] s']; cbn; exact H.
   - (* destroySelf *) unfold handle, bind, gets. cbv beta iota. destruct (nth h (slots s) None) as [[sd x]|] eqn:E; [|discriminate].
     inversion Hs; subst sd. unfold ret at 1. cbv beta iota. cbn [fst snd].
     cbn [step_ok] in Hg. rewrite E in Hg.
@@ -995,7 +1256,37 @@ Proof.
     pose proof (jt_so_expire [] t0 x s Jt) as H. destruct (so_expire cfg Par x s) as [[v|e] s']; cbn; apply H.
   - (* sync *) unfold handle, bind, gets. cbv beta iota. destruct (nth h (slots s) None) as [[sd x]|] eqn:E; [|discriminate].
     inversion Hs; subst sd. unfold ret at 1. cbv beta iota. cbn [fst snd].
-    pose proof (jt_so_sync [] t0 x s Jt) as H. destruct (so_sync Par x s) as [[v|e] s']; cbn; apply H.
+    cbn [step_ok is_sync_update] in Hg. rewrite E in Hg.
+    assert (Hsync : JX [] (snd (so_sync cfg Par x s))).
+    { unfold so_sync. destruct (lazy cfg) eqn:El.
+      - (* lazyUpdate: what is queued is written first *)
+        assert (Hgd : dirty (get_inst s Par x) = true -> pending s = None ->
+                      others_blank s x /\
+                      exists r, tbl_lookup (committed s) (i_id (get_inst s Par x)) = Some r /\ fitsb (i_pending (get_inst s Par x)) r = true).
+        { intros Hd Ep. rewrite Ep, Hd in Hg. cbn in Hg.
+          apply andb_true_iff in Hg. destruct Hg as [H1 H2]. split; [apply others_blankb_ok; exact H1|].
+          destruct (tbl_lookup (committed s) (i_id (get_inst s Par x))) as [r|]; [|discriminate]. exists r. auto. }
+        destruct (jx_so_sync_update s x J Hgd) as [H Hd'].
+        unfold bind. destruct (so_sync_update cfg Par x s) as [[u|e] s1] eqn:Es; cbn [fst snd] in *; [|exact H].
+        assert (R1 : JT [] (committed s1) s1 /\ dirty (get_inst s1 Par x) = false) by (split; [split; [exact H|reflexivity]|apply Hd'; destruct u; reflexivity]).
+        pose proof (jt_so_reload [] (committed s1) x s1 R1) as R.
+        destruct (so_reload Par x s1) as [[u2|e2] s2]; cbn; apply R.
+      - (* eager: nothing is ever queued *)
+        assert (Hd : dirty (get_inst s Par x) = false) by (destruct J as (_ & He & _); destruct (He x) as (B & _); apply (B El)).
+        pose proof (jt_so_reload [] t0 x s (conj Jt Hd)) as R.
+        unfold bind, ret. destruct (so_reload Par x s) as [[u2|e2] s2]; cbn; apply R. }
+    destruct (so_sync cfg Par x s) as [[v|e] s']; cbn; exact Hsync.
+  - (* syncUpdate *) unfold handle, bind, gets. cbv beta iota. destruct (nth h (slots s) None) as [[sd x]|] eqn:E; [|discriminate].
+    inversion Hs; subst sd. unfold ret at 1. cbv beta iota. cbn [fst snd].
+    cbn [step_ok is_sync_update] in Hg. rewrite E in Hg.
+    assert (Hgd : dirty (get_inst s Par x) = true -> pending s = None ->
+                  others_blank s x /\
+                  exists r, tbl_lookup (committed s) (i_id (get_inst s Par x)) = Some r /\ fitsb (i_pending (get_inst s Par x)) r = true).
+    { intros Hd Ep. rewrite Ep, Hd in Hg. rewrite orb_true_r in Hg. cbn in Hg.
+      apply andb_true_iff in Hg. destruct Hg as [H1 H2]. split; [apply others_blankb_ok; exact H1|].
+      destruct (tbl_lookup (committed s) (i_id (get_inst s Par x))) as [r|]; [|discriminate]. exists r. auto. }
+    destruct (jx_so_sync_update s x J Hgd) as [H _].
+    destruct (so_sync_update cfg Par x s) as [[v|e] s']; cbn; exact H.
   - (* drop *) unfold bind, modify, ret. cbn [fst snd].
     eapply JX_transfer; [exact J|apply J|reflexivity|apply J|].
     intros o' Ha _. left. split; [|reflexivity]. apply alive_iff in Ha. apply alive_iff. cbn in Ha.
@@ -1036,23 +1327,22 @@ Qed.
 Lemma exp_so_expire o s : exp_ok s -> exp_ok (snd (so_expire cfg Par o s)).
 Proof.
   intros He. rewrite so_expire_eq. cbv zeta.
-  set (vals' := map (fun _ : option val => @None val) (i_vals (get_inst s Par o))).
-  set (s1 := with_heap s Par (set_nth o (i_with_vals (get_inst s Par o) vals') (heap (cn s Par)))).
-  assert (G1 : forall o', get_inst s1 Par o' = if Nat.eqb o' o && Nat.ltb o (length (heap (cn s Par))) then i_with_vals (get_inst s Par o) vals' else get_inst s Par o').
-  { intros o'. unfold s1. pose proof (get_inst_upd s o (fun i => i_with_vals i vals') o') as G. cbv beta in G. exact G. }
+  change (i_with_pending (i_with_vals (get_inst s Par o) (map (fun _ : option val => None) (i_vals (get_inst s Par o))))
+                         (no_queue (i_pending (get_inst s Par o)))) with (expired_of (get_inst s Par o)).
+  destruct (expired_of_facts (get_inst s Par o)) as [Hnv Hdt].
+  set (s1 := with_heap s Par (set_nth o (expired_of (get_inst s Par o)) (heap (cn s Par)))).
+  assert (G1 : forall o', get_inst s1 Par o' = if Nat.eqb o' o && Nat.ltb o (length (heap (cn s Par))) then expired_of (get_inst s Par o) else get_inst s Par o').
+  { intros o'. unfold s1. exact (get_inst_upd s o expired_of o'). }
   assert (E1 : exp_ok s1).
-  { intros o'. rewrite G1. destruct (Nat.eqb o' o && Nat.ltb o (length (heap (cn s Par)))); [|apply He].
-    intros _. unfold no_vals, vals'. cbn [i_vals i_with_vals]. apply forallb_none_map. }
+  { intros o'. rewrite G1. destruct (Nat.eqb o' o && Nat.ltb o (length (heap (cn s Par)))); [apply inst_ok_novals; assumption|apply He]. }
   destruct (i_expired (get_inst s Par o)); [exact E1|].
-  assert (Hnv : forallb (fun v : option val => match v with None => true | Some _ => false end) vals' = true)
-    by (apply forallb_none_map).
   set (s2 := with_heap s1 Par (set_nth o (i_with_expired (get_inst s1 Par o) true) (heap (cn s1 Par)))).
   assert (E2 : exp_ok s2).
   { intros o'. unfold s2. pose proof (get_inst_upd s1 o (fun i => i_with_expired i true) o') as G. cbv beta in G. rewrite G.
     destruct (Nat.eqb o' o && Nat.ltb o (length (heap (cn s1 Par)))) eqn:E; [|apply E1].
-    intros _. cbn [no_vals i_vals i_with_expired]. rewrite G1, Nat.eqb_refl. cbn [andb].
-    apply andb_true_iff in E. destruct E as [_ E]. change (heap (cn s1 Par)) with (set_nth o (i_with_vals (get_inst s Par o) vals') (heap (cn s Par))) in E.
-    rewrite length_set_nth in E. rewrite E. exact Hnv. }
+    apply andb_true_iff in E. destruct E as [_ E].
+    change (heap (cn s1 Par)) with (set_nth o (expired_of (get_inst s Par o)) (heap (cn s Par))) in E.
+    rewrite length_set_nth in E. rewrite G1, Nat.eqb_refl, E. cbn [andb]. apply inst_ok_novals; [exact Hnv|exact Hdt]. }
   rewrite cache_expire_eq. cbv zeta. destruct (negb (doCache cfg) || negb (c_present (cch s2 Par))); exact E2.
 Qed.
 
@@ -1080,7 +1370,7 @@ Definition K (s : st) : Prop :=
 Lemma K_init : K init.
 Proof.
   split; [apply cache_ok_init|]. split; [apply cache_ok_init|]. split; [apply db_ok_init|]. split.
-  - intros o _. unfold get_inst. cbn. destruct o; reflexivity.
+  - intros o. rewrite get_inst_oob by (cbn; lia). apply inst_ok_blank.
   - intros o Ha. apply alive_iff in Ha. cbn in Ha. destruct Ha as [[]|[[]|[]]].
 Qed.
 
